@@ -333,7 +333,7 @@ def main(chk, args):
     if not build.driver_ok:
         chk.finish(build, RULE)
     model_listing(chk, chk.rng)
-    n = 10 if chk.tier == "quick" else 60
+    n = chk.scale(10 if chk.tier == "quick" else 60)
     for _ in range(n):
         run_case(chk, gen_case(chk.rng))
     if chk.tier == "thorough":
